@@ -97,6 +97,8 @@ def gen_step(w, rg):
         r = G.pick(rg, w.res)
         if r.disk is not None and r.bufstate is None and not any(w.is_buffered(o) for o in w.objs if o.rid == r.rid and hasattr(o.o, "buffered")):
             w._after_outside = True
+            if rg.random() < 0.12 and r.store == "file" and not cfg["mixed"]:
+                return {"t": "outside", "rid": r.rid, "edit": ["delete"]}
             if rg.random() < 0.4 and r.store == "file":
                 return {"t": "outside", "rid": r.rid, "edit": ["reformat", rg.choice([None, 1, 2])]}
             return {"t": "outside", "rid": r.rid, "edit": G.gen_outside_edit(rg, w, r, 2)}
